@@ -31,6 +31,7 @@ type SUR struct {
 	Unknown  bool   `json:"unknown,omitempty"`
 	Omit     bool   `json:"omit,omitempty"`    // the optional ConsumedUnits / MonetaryQuota AVPs are not sent at all (= 0)
 	OtherID  int    `json:"otherId,omitempty"` // 0: END_USER_IMSI; n: Subscription-Id-Type n-1 (E.164, -, SIP URI, NAI, private) with the same digits - names no subscriber
+	DBFail   bool   `json:"dbFail,omitempty"`  // the tariff lookup of this request fails in the database
 }
 
 type C08Case struct {
@@ -97,6 +98,7 @@ func genC08(t *rapid.T) C08Case {
 			r.OtherID = 1 + rapid.SampledFrom([]int{0, 2, 3, 4}).Draw(t, "idType")
 		}
 		r.Omit = rapid.IntRange(0, 4).Draw(t, "omit") == 0
+		r.DBFail = !r.Unknown && r.OtherID == 0 && rapid.IntRange(0, 9).Draw(t, "dbFail") == 0
 		c.Reqs = append(c.Reqs, r)
 	}
 	return c
@@ -214,7 +216,13 @@ func judgeC08(c C08Case) *h.Verdict {
 			omitNext = true
 			consumed, quota = 0, 0 // an absent optional member counts as 0
 		}
+		if r.DBFail {
+			// the tariff cannot be read: the server may stay silent; if it answers, it prices with the stored tariff
+			env.FM.FailNextFind(1)
+			wait = 150 * time.Millisecond
+		}
 		sua, err := sendSUR(ratingPeer, who, rg, r.SubType, consumed, quota, wait)
+		env.FM.FailNextFind(0)
 		if r.Omit {
 			v.Label("optional-avps-omitted")
 		}
@@ -236,6 +244,12 @@ func judgeC08(c C08Case) *h.Verdict {
 		}
 		if r.Unknown {
 			continue
+		}
+		if r.DBFail {
+			v.NT("tariff-lookup-fails-in-the-database")
+			if sua == nil || sua.ServiceRating == nil {
+				continue
+			}
 		}
 		if sua == nil {
 			// no answer: is the server still answering at all (same and fresh connection)?
